@@ -27,11 +27,19 @@ var allPlacements = []placement{
 	{"siblings", "plain"}, // fi in d<i>/, `import "../d1/f1.bop"` (all directories at the same depth)
 	{"deep", "plain"},     // f0 in a/, f1 in b/, f2 in b/sub/, f3 in c/x/y/: `import "sub/f2.bop"`, `import "../../../b/f1.bop"`
 	{"decoy", "plain"},    // f0 in a/, the others in b/ importing each other as "f2.bop"; a/f2.bop is a decoy
+	{"flatcase", "plain"}, // one directory, file names that differ only in letter case: Node.bop, node.bop, NODE.bop
+	{"samename", "plain"}, // f0, f1 in top/, f2, f3 in top/sub/; f1 and f3 are both called common.bop: two REAL files with one spelling
+	{"samename", "dot"},
 }
 
 func (p placement) dir(i int) string {
 	switch p.Kind {
-	case "flat":
+	case "flat", "flatcase":
+		return "top"
+	case "samename":
+		if i >= 2 {
+			return "top/sub"
+		}
 		return "top"
 	case "siblings":
 		return fmt.Sprintf("d%d", i)
@@ -56,9 +64,21 @@ func (p placement) dir(i int) string {
 	panic("unknown placement " + p.Kind)
 }
 
-func fileName(i int) string { return fmt.Sprintf("f%d.bop", i) }
+func (p placement) fileName(i int) string {
+	switch p.Kind {
+	case "flatcase":
+		if i < 4 {
+			return []string{"root.bop", "Node.bop", "node.bop", "NODE.bop"}[i]
+		}
+	case "samename":
+		if i < 4 {
+			return []string{"root.bop", "common.bop", "feature.bop", "common.bop"}[i]
+		}
+	}
+	return fmt.Sprintf("f%d.bop", i)
+}
 
-func (p placement) rel(i int) string { return p.dir(i) + "/" + fileName(i) }
+func (p placement) rel(i int) string { return p.dir(i) + "/" + p.fileName(i) }
 
 // importPath spells the path of fj as seen from fi's directory.
 func (p placement) importPath(i, j int) string {
@@ -66,9 +86,9 @@ func (p placement) importPath(i, j int) string {
 	if err != nil {
 		panic(err)
 	}
-	plain := fileName(j)
+	plain := p.fileName(j)
 	if r != "." {
-		plain = r + "/" + fileName(j)
+		plain = r + "/" + p.fileName(j)
 	}
 	style := p.Style
 	if style == "mixed" {
@@ -143,7 +163,7 @@ func materialise(s *spec, p placement) map[string]string {
 	}
 	if p.Kind == "decoy" {
 		for j := 1; j < s.N; j++ {
-			m[p.dir(0)+"/"+fileName(j)] = decoyText(s, j)
+			m[p.dir(0)+"/"+p.fileName(j)] = decoyText(s, j)
 		}
 	}
 	return m
